@@ -32,6 +32,7 @@ func init() {
 			{ID: "C11-R6", Title: "deny-list and override loops visit every entry", Floor: 2, Run: c11r6},
 			{ID: "C11-R7", Title: "top-level globals are not members of a module", Floor: 1, Run: c11r7},
 			{ID: "C11-R8", Title: "Config owns its maps", Floor: 2, Run: configOwnsItsMaps},
+			{ID: "C11-R9", Title: "VMs are not recycled across configurations", Floor: 1, Run: vmNotPooled},
 		},
 	})
 }
